@@ -89,8 +89,20 @@ func runCrash(c *evid.Ctx, id string, cfg crashCfg) {
 		// power-loss images of the production stack (real fs, real BoltDB) replayed from strace
 		if quick(c) {
 			replayPart(c, 3, 24, 2, "log")
+			if id == "C01" {
+				// every third fsync of the main thread fails, in all three phases (period 2 would
+				// make a retried first Sync fail for ever); the first few are spared so that Open succeeds
+				replayPart(c, 1, 24, 1, "log;inject=fsync:error=EIO:when=4+3")
+				replayPart(c, 1, 24, 1, "log;inject=fsync:error=EIO:when=5+3")
+				replayPart(c, 1, 24, 1, "log;inject=fsync:error=ENOSPC:when=6+3")
+			}
 		} else {
 			replayPart(c, 16, 70, 1, "log")
+			if id == "C01" {
+				for _, inj := range []string{"fsync:error=EIO:when=4+3", "fsync:error=EIO:when=5+3", "fsync:error=ENOSPC:when=6+3", "fsync:error=EIO:when=5+4", "fsync:error=EIO:when=7+5", "pwrite64:error=EIO:when=9+4", "fdatasync:error=EIO:when=6+3", "fallocate:error=ENOSPC:when=2+2"} {
+					replayPart(c, 2, 50, 1, "log;inject="+inj)
+				}
+			}
 		}
 	}
 	c.Extra("behaviour_calibrated", crashsim.BehaviourUsed())
